@@ -385,6 +385,7 @@ impl PanicInfo {
         let mut out = String::new();
         let mut in_num = false;
         for c in self.msg.chars() {
+            let c = if c == '\n' { ' ' } else { c };
             let numeric = c.is_ascii_digit()
                 || (in_num && (c == '.' || c == 'e' || c == '-' || c == '+'));
             if numeric {
